@@ -427,8 +427,8 @@ def oracle(case, tolerated=()):
                     break
                 continue
             exp = ref.eval_txn(tx)
-            if res[0] == "err" and res[1] == "drift" and tx["cmp"] and tx["cmp"][0]["arg"] > max(ref.rev, committed) + 1:
-                continue        # an expectation above the next revision: refused with a drift error (shim_sound: "error or etcd's answer")
+            if res[0] == "err" and res[1] == "drift" and tx["cmp"] and tx["cmp"][0]["arg"] >= max(ref.rev, committed) + 1:
+                continue        # an expectation at or above the next revision: refused with a drift error (shim_sound: "error or etcd's answer")
             if res[0] != "ok":
                 hit(i, "a supported transaction was answered with %s" % (res,), "txn-canonical-error")
                 break
